@@ -10,6 +10,20 @@ import PeroVerif.Lemmas.Confidence
 namespace C16
 open Conf
 
+/-- obligations on the GENERATED window border and end sentinel of `get_line_confidence` — the ONLY places that
+evaluate `Gen.Confidence.nextBorder` / `Gen.Confidence.sentinel`: the border between the windows of two neighbouring
+characters lies strictly after the first character's frame (`a < border`) and not after the second's
+(`border ≤ a'`) — so every window contains its own character's frame —, it is their midpoint rounded as
+`(a + 1 + a') / 2`, and the sentinel is at least the number of frames. -/
+theorem cfg_nextBorder (a a' : Nat) : (Gen.Confidence.nextBorder (a : Int) (a' : Int)).toNat = (a + 1 + a') / 2 := by
+  unfold Gen.Confidence.nextBorder
+  rw [Py.floorDiv_two]
+  omega
+
+theorem cfg_sentinel (T : Nat) : (Gen.Confidence.sentinel (T : Int)).toNat = max 1000 T := by
+  unfold Gen.Confidence.sentinel
+  omega
+
 section Field
 variable {R : Type} [Field R] [LinearOrder R] [IsStrictOrderedRing R]
 
@@ -25,7 +39,7 @@ def Probs (C : ℕ) (probs : List (List R)) : Prop :=
 theorem lineConfidence_range (C : ℕ) (probs : List (List R)) (labels alignment : List ℕ) (cs : List R)
     (hp : Probs C probs) (h : getLineConfidence (COps.of R) probs labels alignment = some cs) :
     cs.length = labels.length ∧ ∀ c ∈ cs, 0 ≤ c ∧ c ≤ 1 := by
-  exact Conf.lineConfidence_rangeL (C := C) hp h
+  exact Conf.lineConfidence_rangeL cfg_nextBorder (C := C) hp h
 
 /-- The computation is defined (no NumPy error: every window is non-empty) whenever the alignment is
 strictly increasing inside the matrix — which C05 proves for `align_text` — and there are ≥ 2 classes. -/
@@ -33,7 +47,7 @@ theorem lineConfidence_defined (C : ℕ) (hC : 2 ≤ C) (probs : List (List R)) 
     (hp : Probs C probs) (hl : labels.length = alignment.length) (hlab : ∀ l ∈ labels, l < C)
     (hal : alignment.Pairwise (· < ·)) (hT : ∀ a ∈ alignment, a < probs.length) :
     ∃ cs, lineConfidence (COps.of R) probs labels alignment = some cs := by
-  exact Conf.lineConfidence_definedL hC hp hl hlab hal hT
+  exact Conf.lineConfidence_definedL cfg_nextBorder cfg_sentinel hC hp hl hlab hal hT
 
 /-- One label: if the aligned frame gives the label probability 1 and, inside the label's window,
 all mass of the other (non-blank, non-neighbour) symbols is 0 — as for one-hot posteriors — the
@@ -46,7 +60,7 @@ theorem labelConfidence_onehot (C : ℕ) (probs : List (List R)) (labels al : Li
         j ≠ labels.getD i 0 → (i > 0 → j ≠ labels.getD (i - 1) 0) →
         (i + 1 < labels.length → j ≠ labels.getD (i + 1) 0) → row[j]? = some 0) :
     c = 1 := by
-  exact Conf.labelConfidence_onehotL (C := C) hp h hlab hoth
+  exact Conf.labelConfidence_onehotL cfg_nextBorder (C := C) hp h hlab hoth
 
 /-- Transformer lines: the confidence is the posterior of the label in its own frame. -/
 theorem transformer_range (C : ℕ) (probs : List (List R)) (labels : List ℕ) (cs : List R)
